@@ -2442,6 +2442,208 @@ fn run_ctor_cases(ctx: &mut Ctx, rng_seed: u64) {
     }
 }
 
+// ------------------------------------------------------------------------------------------------
+// the consumers of the per-edge tables: the real lookups at edge ids inside and beyond the table
+
+fn run_lookup_case(ctx: &mut Ctx, idx: usize, dir: &Path, rng: &mut Rng, kind: usize) {
+    use routee_compass::app::compass::config::frontier_model::road_class::road_class_model::RoadClassFrontierModel;
+    use routee_compass::app::compass::config::frontier_model::road_class::road_class_parser::RoadClassParser;
+    use routee_compass::app::compass::config::frontier_model::road_class::road_class_service::RoadClassFrontierService;
+    use routee_compass_core::model::access::default::turn_delays::turn_delay_access_model_engine::get_headings;
+    use routee_compass_core::model::frontier::frontier_model::FrontierModel;
+    use routee_compass_core::model::state::state_model::StateModel;
+    use routee_compass_core::model::traversal::default::speed_traversal_model::get_speed;
+    use routee_compass_powertrain::routee::energy_model_ops::get_grade;
+    // kinds: 0 speed, 1 heading, 2 grade with a table, 3 grade without, 4 road class with a restriction, 5 without
+    let names = ["speed", "heading", "grade", "grade", "class", "class"];
+    let n = 1 + rng.below(30);
+    let gz = rng.chance(1, 2);
+    let path = dir.join(format!("l{}_{}.{}{}", idx, names[kind], if kind == 1 { "csv" } else { "txt" }, if gz { ".gz" } else { "" }));
+    let mut payload: Vec<u64> = vec![];
+    let mut lines: Vec<String> = vec![];
+    if kind == 1 {
+        lines.push("arrival_heading,departure_heading".into());
+    }
+    for _ in 0..n {
+        match kind {
+            0 => {
+                let x = (5 + rng.below(120)) as f64 + 0.25 * rng.below(4) as f64;
+                payload.push(x.to_bits());
+                lines.push(format!("{}", x));
+            }
+            1 => {
+                let a = rng.range(0, 359) as i16;
+                let b = rng.range(0, 359) as i16;
+                payload.push(((a as u16 as u64) << 16) | (b as u16 as u64));
+                lines.push(format!("{},{}", a, b));
+            }
+            2 | 3 => {
+                let x = rng.uniform(-0.3, 0.3);
+                payload.push(x.to_bits());
+                lines.push(format!("{}", x));
+            }
+            _ => {
+                let x = rng.below(8) as u64;
+                payload.push(x);
+                lines.push(format!("{}", x));
+            }
+        }
+    }
+    let text = lines.join("\n") + "\n";
+    write_file(&path, &text, gz);
+    let allowed: Option<Vec<u8>> = if kind == 4 { Some((0..8u8).filter(|_| rng.chance(1, 2)).collect()) } else { None };
+    // edge ids inside the table, its last row, the first id beyond it, and far beyond
+    let mut probes: Vec<usize> = (0..n + 3).collect();
+    probes.push(n + 1000);
+    probes.push(usize::MAX);
+    rng.shuffle(&mut probes);
+    probes.truncate(14);
+    let p2 = path.clone();
+    let probes2 = probes.clone();
+    let allowed2 = allowed.clone();
+    let res: Result<Result<Vec<Result<u64, ()>>, String>, ()> = std::panic::catch_unwind(move || -> Result<Vec<Result<u64, ()>>, String> {
+        let out = match kind {
+            0 => {
+                let engine = SpeedTraversalEngine::new(&p2, SpeedUnit::KilometersPerHour, None, None).map_err(|e| e.to_string())?;
+                probes2.iter().map(|e| get_speed(&engine.speed_table, EdgeId(*e)).map(|s| s.as_f64().to_bits()).map_err(|_| ())).collect()
+            }
+            1 => {
+                let t = read_utils::from_csv::<EdgeHeading>(&p2, true, None).map_err(|e| e.to_string())?;
+                probes2
+                    .iter()
+                    .map(|e| get_headings(&t, EdgeId(*e)).map(|h| ((h.start_heading() as u16 as u64) << 16) | (h.end_heading() as u16 as u64)).map_err(|_| ()))
+                    .collect()
+            }
+            2 | 3 => {
+                let t: Option<Box<[Grade]>> = if kind == 2 {
+                    Some(read_utils::read_raw_file(&p2, read_decoders::default::<Grade>, None).map_err(|e| e.to_string())?)
+                } else {
+                    None
+                };
+                probes2.iter().map(|e| get_grade(&t, EdgeId(*e)).map(|g| g.as_f64().to_bits()).map_err(|_| ())).collect()
+            }
+            _ => {
+                let t: Box<[u8]> = read_utils::read_raw_file(&p2, read_decoders::u8, None).map_err(|e| e.to_string())?;
+                let model = RoadClassFrontierModel {
+                    service: std::sync::Arc::new(RoadClassFrontierService { road_class_lookup: std::sync::Arc::new(t), road_class_parser: RoadClassParser::default() }),
+                    road_classes: allowed2.map(|a| a.into_iter().collect()),
+                };
+                let sm = StateModel::empty();
+                probes2
+                    .iter()
+                    .map(|e| model.valid_frontier(&Edge::new(*e, 0, 0, 1.0), &[], None, &sm).map(|b| b as u64).map_err(|_| ()))
+                    .collect()
+            }
+        };
+        Ok(out)
+    })
+    .map_err(|_| ());
+    let _ = std::fs::remove_file(&path);
+    let mut t: Vec<String> = vec!["lookup".into(), names[kind].into()];
+    if kind == 3 {
+        t.push("n".into());
+    } else {
+        t.push("s".into());
+        t.push(n.to_string());
+        t.extend(payload.iter().map(|p| p.to_string()));
+    }
+    match &allowed {
+        None => t.push("n".into()),
+        Some(a) => {
+            t.push("s".into());
+            t.push(a.len().to_string());
+            t.extend(a.iter().map(|c| c.to_string()));
+        }
+    }
+    t.push(probes.len().to_string());
+    t.extend(probes.iter().map(|p| p.to_string()));
+    let line = t.join(" ");
+    let out = match &res {
+        Err(_) => "panic".to_string(),
+        Ok(Err(_)) => "err".to_string(),
+        Ok(Ok(v)) => v
+            .iter()
+            .zip(probes.iter())
+            .map(|(r, e)| match r {
+                Ok(x) => format!("s {}", x),
+                Err(_) => format!("m {}", e),
+            })
+            .collect::<Vec<_>>()
+            .join(" "),
+    };
+    ctx.emit(idx, line.clone(), out);
+    ctx.count(&format!("lookup/{}{}", names[kind], if kind == 3 || kind == 5 { "-unrestricted" } else { "" }));
+    ctx.nontrivial(&line);
+    // oracle: the consumer's answer for edge e is what line e of the file says; no line, no answer
+    match &res {
+        Err(_) => ctx.fail(idx, "table/lookup-panic", format!("{} lookup panicked", names[kind])),
+        Ok(Err(e)) => ctx.fail(idx, "table/load-error", format!("{} table rejected: {}", names[kind], e)),
+        Ok(Ok(v)) => {
+            for (r, e) in v.iter().zip(probes.iter()) {
+                let want: Result<u64, ()> = match kind {
+                    3 => Ok(0f64.to_bits()),
+                    5 => Ok(1),
+                    4 => payload.get(*e).map(|c| allowed.as_ref().unwrap().contains(&(*c as u8)) as u64).ok_or(()),
+                    _ => payload.get(*e).cloned().ok_or(()),
+                };
+                if *r != want {
+                    ctx.fail(idx, "table/consumer-alignment", format!("{} lookup for edge {}: expected {:?} (line {} of {} lines) got {:?}", names[kind], e, want, e, n, r));
+                    break;
+                }
+            }
+        }
+    }
+}
+
+/// a declared vertex count beyond what a vector can hold: a DatasetError (`vec![..; n_vertices]` panicked
+/// with "capacity overflow" in EdgeLoader::try_from before the repair).  Only counts above
+/// isize::MAX / size_of(entry) are tried: below that limit the allocation itself would be attempted
+/// and could abort the process.
+fn run_loadcap_case(ctx: &mut Ctx, idx: usize, dir: &Path, rng: &Rng, k: usize) {
+    use routee_compass_core::util::compact_ordered_hash_map::CompactOrderedHashMap;
+    let size = std::mem::size_of::<CompactOrderedHashMap<EdgeId, VertexId>>();
+    let cap = isize::MAX as usize / size;
+    let mut case = Case {
+        kind: "declared-nv-huge",
+        edges: vec![e(0, 0, 1, 7.0), e(1, 1, 0, 9.0)],
+        vertices: grid_vertices(2),
+        n_e: Some(2),
+        n_v: Some([usize::MAX, usize::MAX / 2, cap + 1, cap + 2, usize::MAX - 7][k % 5]),
+        e_enc: Enc::plain(4),
+        v_enc: Enc::plain(3),
+        verbose: None,
+    };
+    match k / 5 {
+        1 => case.n_e = None,
+        2 => case.e_enc.absent = true, // the count comes first: still the panic with a declared edge count
+        3 => {
+            // a scanned edge count of a missing file fails before the tables are allocated
+            case.e_enc.absent = true;
+            case.n_e = None;
+        }
+        4 => case.n_v = Some(2), // an ordinary count under the same entry point
+        _ => {}
+    }
+    let tag = format!("h{}", idx);
+    let w = write_case(dir, &tag, rng, &case, false, false);
+    let res = load_v(&w, case.n_e, case.n_v, None);
+    let out = match &res {
+        Err(p) if p.contains("capacity overflow") => "panic capacity".to_string(),
+        _ => outcome_line(&res),
+    };
+    let mut t: Vec<String> = vec!["loadcap".into(), format!("size{}", size), cap.to_string(), opt_tok(case.n_e), opt_tok(case.n_v)];
+    t.extend(file_spec_tokens(&case, &w));
+    let line = t.join(" ");
+    ctx.emit(idx, line.clone(), out.clone());
+    ctx.count("declared-count-beyond-capacity");
+    ctx.nontrivial(&line);
+    if out.starts_with("panic") {
+        ctx.fail(idx, "edge_loader/huge-declared-count-panics", format!("n_vertices = {:?}: Graph::from_files panicked ({}) instead of returning an error", case.n_v, match &res { Err(p) => p.clone(), _ => String::new() }));
+    }
+    let _ = std::fs::remove_file(&w.e_path);
+    let _ = std::fs::remove_file(&w.v_path);
+}
+
 pub fn run(ctx: &mut Ctx) -> &'static str {
     let dir = std::env::current_dir().unwrap().join("work").join(format!("c15_scratch_{}", std::process::id()));
     std::fs::create_dir_all(&dir).expect("scratch dir");
@@ -2491,6 +2693,17 @@ pub fn run(ctx: &mut Ctx) -> &'static str {
         run_vrow_case(ctx, idx, &dir, &mut rng, [0, 0, 0, 2, 0, 2, 1, 3][k % 8]);
     }
     run_ctor_cases(ctx, ctx.seed);
+    let n_lookup = ctx.n(180, 2400);
+    for k in 0..n_lookup {
+        let Some(idx) = ctx.begin() else { continue };
+        let mut rng = Rng::for_case(ctx.seed, 15, idx as u64);
+        run_lookup_case(ctx, idx, &dir, &mut rng, k % 6);
+    }
+    for k in 0..25 {
+        let Some(idx) = ctx.begin() else { continue };
+        let rng = Rng::for_case(ctx.seed, 15, idx as u64);
+        run_loadcap_case(ctx, idx, &dir, &rng, k);
+    }
     let _ = std::fs::remove_dir_all(&dir);
-    "edge/vertex CSV files written by the harness (plain and gzip with one or several members; BOM; permuted and extra columns in both files, padding, quoting, CRLF, missing final newline, trailing blank lines, embedded newlines; lengths and coordinates that are NaN, infinite, negative, zero, out of the f32 range or spelt differently; vertex degrees 0-12 and above, parallel edges, self loops, isolated vertices; explicit and scanned counts; verbose on/off) loaded with the real Graph::from_files, every accessor printed for every edge/vertex id and one id beyond each range; 20 kinds of malformed input (ids not row numbers or at the top of the usize range, endpoints without vertex, wrong declared counts, missing column, undecodable cell, short row, missing or empty file, gzip cut short in its header / first block / body / trailer, lone-CR line endings, compression not matching the file name); Graph values assembled field by field (inconsistent on purpose) for every accessor and error arm; DefaultGraphBuilder::build over configuration sections (valid, keys missing or ill-typed, paths that are not files, ill-typed counts, non-object sections, counts disagreeing with the files); the Vertex deserializer entry by entry (csv with and without header row, JSON); constructors; per-edge tables (speed, grade, road class, heading) read by the real readers with and without callback, with undecodable rows, bytes that are not UTF-8, truncated and multi-member gzip, missing files; non-trivial = a network with at least one edge, a malformed input, a Graph value, a configuration, a vertex row, or a table; distinct by full case text"
+    "edge/vertex CSV files written by the harness (plain and gzip with one or several members; BOM; permuted and extra columns in both files, padding, quoting, CRLF, missing final newline, trailing blank lines, embedded newlines; lengths and coordinates that are NaN, infinite, negative, zero, out of the f32 range or spelt differently; vertex degrees 0-12 and above, parallel edges, self loops, isolated vertices; explicit and scanned counts; verbose on/off) loaded with the real Graph::from_files, every accessor printed for every edge/vertex id and one id beyond each range; 20 kinds of malformed input (ids not row numbers or at the top of the usize range, endpoints without vertex, wrong declared counts, missing column, undecodable cell, short row, missing or empty file, gzip cut short in its header / first block / body / trailer, lone-CR line endings, compression not matching the file name); Graph values assembled field by field (inconsistent on purpose) for every accessor and error arm; DefaultGraphBuilder::build over configuration sections (valid, keys missing or ill-typed, paths that are not files, ill-typed counts, non-object sections, counts disagreeing with the files); the Vertex deserializer entry by entry (csv with and without header row, JSON); constructors; per-edge tables (speed, grade, road class, heading) read by the real readers with and without callback, with undecodable rows, bytes that are not UTF-8, truncated and multi-member gzip, missing files; the real consumers of those tables (get_speed, get_headings, get_grade with and without a table, RoadClassFrontierModel::valid_frontier with and without a restriction) at edge ids inside and beyond the table; declared vertex counts beyond the capacity of a vector; non-trivial = a network with at least one edge, a malformed input, a Graph value, a configuration, a vertex row, or a table; distinct by full case text"
 }
